@@ -15,7 +15,7 @@ CHECKS = {
     'C01': ('E1', 'bounded-exhaustive enumeration of database shapes x configuration grid vs posting-list reference',
             'Every scheme x every point of the supported configuration grid (incl. misaligned-width, wide-keyword and capacity-upper-bound points) x every integer partition of every N<=8 (12 thorough) in both keyword '
             'orders, plus boundary profiles around every block/level/2^k/index-width/case-split length: KeyGen, EDBSetup and a search of EVERY '
-            'stored keyword run on the real code; result compared with DB[w]; one scheme object per configuration reused across the cases of a unit and a per-scheme sweep over all configuration points in one process; the database is altered and encrypted again under the same key by the same object and both indexes are searched. Exhaustive over shapes inside the bounds.',
+            'stored keyword run on the real code; result compared with DB[w]; one scheme object per configuration reused across the cases of a unit and a per-scheme sweep over all configuration points in one process; the database is altered and encrypted again under the same key by the same object and both indexes are searched; many-keyword profiles ([1]*255..257, [2]*130, [3]*100, 1..30), KiB-long keywords, PiBas identifiers of mixed lengths. Exhaustive over shapes inside the bounds.',
             'One DRBG value assignment per shape and seed; shapes above the bounds are not covered.', 'DESIGN.md 4/C01'),
     'C02': ('E1', 'bounded-exhaustive enumeration of databases x adversarially close absent keywords',
             'All partitions of N<=6 (9) per scheme/configuration point x the absent-keyword family (prefix, suffix, +byte, +NUL, bit flips, '
@@ -30,12 +30,12 @@ CHECKS = {
             'and identifier, pairwise-distinct ciphertext entries inside one index, disjoint entries across two setups of the same (K, DB) by one scheme object and a third by a brand-new object, incl. setups of 16..256 postings.',
             'Decided for DRBG values only; ciphertext entries located by position per scheme.', 'DESIGN.md 4/C04'),
     'C05': ('E1', 'exhaustive enumeration of all list-length profiles, grouped by public size parameter, generic shape walk',
-            'ALL partitions of every N<=12 (16) per scheme/configuration point, two content assignments each, grouped by pi_S: the generic '
+            'ALL partitions of every N<=12 (16) per scheme/configuration point, two content assignments each, plus equal-N families at N=600 and 1025 (3000), grouped by pi_S: the generic '
             'shape of the unpickled index must be one per class; every padded table has one key length and one value length.',
             'Shape = container sizes and byte-string lengths (what the property defines); N above the bound only at 2^k landmarks.', 'DESIGN.md 4/C05'),
     'C06': ('E1', 'exhaustive enumeration of keyword-order permutations; two-setup placement comparison with recording lists',
             'Label tables: all permutations (<=24) of every partition of N<=6 (8) with <=4 keywords under one key - sortedness and equality on '
-            'common labels. Arrays: all profiles with 12..24 array-resident blocks (capped in quick), two setups, slots read by Search must differ; every 4th profile (thorough: all) 10 setups, no single block at one slot in all of them.',
+            'common labels; 5400 postings in 60 lists in three keyword orders. Arrays: all profiles with 12..24 array-resident blocks (capped in quick), two setups, slots read by Search must differ; every 4th profile (thorough: all) 10 setups, no single block at one slot in all of them.',
             'Chance coincidence <= 1/12! per array case.', 'DESIGN.md 4/C06'),
     'C07': ('E2', 'explicit-state search over search histories (BFS on canonical state + all sequences to depth k, no dedup)',
             'Per scheme x 2 configurations x 3 databases: BFS over (EDB bytes, token bytes, config fingerprint) reaches a fixpoint with one '
@@ -47,38 +47,38 @@ CHECKS = {
             'Triples only for length fields (thorough); databases valid for the configuration only.', 'DESIGN.md 4/C08'),
     'C09': ('E3', 'exhaustive enumeration of client-reload / server-restart placements on the virtual network (real client, server, websockets)',
             'All 9 schemes x 2 JSON databases x all 2^6 keep/reload placements over the workflow boundaries x 3 server-restart options; every '
-            'keyword and an absent keyword searched twice; delivered bytes, hex/int/raw/utf8 renderings compared with the JSON database; plus two interleaved services per scheme, patterned keys, all 27 cleanup-timer firings between the networked steps, an early-loaded second client object; the workflow through frontend/client/commands.py itself (JSON files, service by name, printed hex/int results) for 3 databases per scheme.',
+            'keyword and an absent keyword searched twice; delivered bytes, hex/int/raw/utf8 renderings compared with the JSON database; plus two interleaved services per scheme, patterned keys, all 27 cleanup-timer firings between the networked steps, an early-loaded second client object; the workflow through frontend/client/commands.py itself (JSON files, service by name, printed hex/int results) for 3 databases per scheme; one workflow with a result above 1 MiB.',
             'One client at a time, hence no scheduling choices; in-memory transport (loopback-TCP replays: mc/loopback.py).', 'DESIGN.md 4/C09'),
     'C10': ('E2', 'explicit-state BFS to fixpoint + all histories to depth k over the real connection handler on the virtual network, 3-state reference model',
-            'Alphabet of 14 protocol events (two configs, two indexes, search, reconnect before/after the cleanup delay, five foreign sids incl. same-first-8-characters / other case / one character longer or shorter, missing sid, unknown type, three malformed messages, a configuration that cannot be stored) '
+            'Alphabet of 15 protocol events (two configs, two indexes, search, a second token under the same correlation value, reconnect before/after the cleanup delay, five foreign sids incl. same-first-8-characters / other case / one character longer or shorter, missing sid, unknown type, three malformed messages, a configuration that cannot be stored) '
             'applied to every reachable canonical state (model + files + active Service snapshot + registry + timers); all histories of length <= 4 (5) without dedup.',
             'One connection at a time; canonical state abstracts the number of stale cleanup timers to 0/1/several.', 'DESIGN.md 4/C10'),
     'C11': ('E2', 'explicit-state BFS to fixpoint + all histories to depth k over the real client Service (fresh object per command) against a live server, 5-flag reference model',
             'Alphabet of 9 client operations incl. two uninstantiable configurations and create-again; every reachable flag set x every operation; all histories of '
-            'length <= 5 (6); refusal leaves files byte-identical; persisted flags; key bytes write-once; searches after upload; the same through frontend/client/commands.py (10 commands, one process).',
+            'length <= 5 (6); refusal leaves files byte-identical; persisted flags; key bytes write-once; searches after upload; the same through frontend/client/commands.py (10 commands, one process); create-matrix over all 9 schemes (created <=> the scheme can be constructed).',
             'PiBas (thorough: + CT14); operations before any create use a well-formed unknown sid as the CLI would.', 'DESIGN.md 4/C11'),
     'C12': ('E3', 'stateless exploration of all delivery/timer schedules (deviation-bounded for 3 connections) of the real server under scripted raw connections',
-            'Every ordered pair of 6 scripts (incl. open-and-close-while-waiting) x 3 initial durable states: ALL schedules (no cap hit in quick); the same pairs with a different request path per connection at deviation bound 2 (4); 9 triples x 3 states with <= 2 (4) '
+            'Every ordered pair of 6 scripts (incl. open-and-close-while-waiting) x 3 initial durable states: ALL schedules (no cap hit in quick); the same pairs with a different request path per connection at deviation bound 2 (4), and with the predecessor's cleanup still pending; 9 triples + 8 triples with a connection that leaves last / gives up while waiting; triples x 3 states with <= 2 (4) '
             'deviations; oracles O1-O5 (serialisation at the instant of each server write, monotone durable state, single acknowledgement, control notice, no stuck request).',
             'Timer rule (only <= 2 s timers are schedulable), per-connection FIFO, client-bound frames eager; 3 connections only deviation-bounded.', 'DESIGN.md 4/C12'),
     'C13': ('E4', 'exhaustive crash-point enumeration (kill one component before/after every file-system mutation) on the virtual network with a crash file system',
-            'Every mutation inside the persisting handlers named by the property x {before, after}, for a small and a multi-chunk PiBas workflow and the small one driven through frontend/client/commands.py with the service addressed by name '
+            'Every mutation inside the persisting handlers named by the property x {before, after}, for a small and a multi-chunk PiBas workflow and the small one driven through frontend/client/commands.py with the service addressed by name; for the small workflow a SECOND crash (client or server) before/after every in-scope mutation of the retry and of every later command '
             '(thorough: + Pi2Lev, DP17): survivor runs on, dead component restarted on the same directory, probe handshake, client reload, retry rule, rest of the workflow, final searches.',
             'Crash model of the property (no write reordering, no torn 8 KiB chunk); SIGKILL replays of the interposer: mc/loopback.py.', 'DESIGN.md 4/C13'),
     'C14': ('E1', 'exhaustive enumeration of message lengths x key sizes vs independent AES-CBC/PKCS7 computation',
-            'All message lengths 0..200 (0..300 + long) x 3 key sizes x 3 keys; declared-length variants; all wrong key lengths 0..40; constructor domain; 600 (5000) encryptions by one object with pairwise distinct IVs, every IV byte position varying.',
+            'All message lengths 0..200 (0..300 + long) x 3 key sizes x 3 keys; declared-length variants; all wrong key lengths 0..40; constructor domain; 600 (5000) encryptions by one object with pairwise distinct IVs, every IV byte position varying; 3000 (20000) wrong keys per ciphertext; lengths around 256 and 4096.',
             'cryptography\'s AES is the trusted reference; keys are DRBG values.', 'DESIGN.md 4/C14'),
     'C15': ('E1', 'exhaustive enumeration of the whole domain {0,1}^n (bijection) + bounded widths',
-            'BitwiseFFX: all 2^n inputs for n=2..12 (13) under 3 keys - bijection and both inverses; 24 non-default constructions (even rounds x digests) for all inputs of n=2..8 (10); all widths 12..2..12 under ONE key in one process through the PRP wrapper; wide n incl. around 160/320/2047 bits; '
-            'Luby-Rackoff: all 65536 two-byte messages, four-byte messages injective on every one-half-exhaustive slice, even lengths 2..64 sampled; all length contracts.',
+            'BitwiseFFX: all 2^n inputs for n=2..12 (13) under 3 keys - bijection and both inverses; 24 non-default constructions (even rounds x digests) for all inputs of n=2..8 (10); 20 keys through one object in three orders; all widths 12..2..12 under ONE key in one process through the PRP wrapper; wide n incl. around 160/320/2047 bits; '
+            'Luby-Rackoff: all 65536 two-byte messages, four-byte messages injective on every one-half-exhaustive slice, even lengths 2..64 and 96..4096 sampled; all length contracts.',
             '3 keys per width; wide widths use 20 DRBG inputs.', 'DESIGN.md 4/C15'),
     'C16': ('E1', 'bounded-exhaustive enumeration vs independent RFC 5246 P_hash and counter-mode references',
             'quick: boundary grid of key/message/output lengths per digest; thorough: the full 81x201x200 box per digest; TLS 1.2 vector anchors '
-            'reference and implementation; 2000-pair distinctness; contracts; every call history of length <= 4 over valid/refused calls on one object.',
+            'reference and implementation; 2000-pair distinctness; contracts; every call history of length <= 4 over valid/refused calls on one object; outputs of 255..257 blocks and 70000 bytes, KiB messages.',
             'hashlib/hmac are the trusted base.', 'DESIGN.md 4/C16'),
     'C17': ('E1', 'bounded-exhaustive enumeration of sizes/capacities/lengths/compositions',
             'Block partition/parse round trips over (identifier size, capacity, list length, block size) grids (thorough: all 40x70 x dense '
-            'lengths), ALL compositions of lengths <=9 (12) for split, all widths 0..41 for int conversions, XOR (random, result-structured and one-byte-exhaustive operands), hex database formats.',
+            'lengths), ALL compositions of lengths <=9 (12) for split, all widths 0..41 for int conversions, XOR (random, result-structured and one-byte-exhaustive operands), hex database formats incl. every sequence of 1..4 identifier lengths.',
             'Identifier bytes are DRBG values plus awkward members.', 'DESIGN.md 4/C17'),
     'C18': ('E1', 'bounded-exhaustive enumeration vs list-of-bits reference model',
             'Every Bitset operation named by the property is executed for every value of every length 0..8 (all operand pairs for '
@@ -89,11 +89,11 @@ CHECKS = {
     'C19': ('E2', 'explicit-state BFS to fixpoint over the real array + undeduplicated depth-bounded DFS, list reference model',
             'For every (len<=3 (4), item_size<=2 (3), items_per_file<=len+2): every event of a ~3k-event alphabet (all indices, all raw slices, '
             'all bad-element positions, close/reopen) applied to every reachable canonical state (cold-cache states included: read-backs leave no trace), complete read-back incl. close+open after every state-changing transition; all histories to depth 3 (4) on larger '
-            'configurations without dedup.',
+            'configurations without dedup; configurations with 12 and 70 chunk files.',
             'Fixpoint only for small arrays; lengths up to 40 only by depth-bounded search (thorough).', 'DESIGN.md 4/C19'),
     'C20': ('E2', 'explicit-state BFS to fixpoint over the real dictionaries + undeduplicated depth-bounded DFS, dict reference model',
             'PickledDict full life cycle and DBMDict within one session: every event applied to every reachable (ordered items, closed) state '
-            'over 3 (4) keys x 3 values, complete read-back (and close+open / sync) after every state-changing transition; all histories to depth 4 (5) without dedup; from_dict independence for every sub-dictionary.',
+            'over 3 (4) keys x 3 values, complete read-back (and close+open / sync) after every state-changing transition; all histories to depth 4 (5) without dedup; from_dict independence for every sub-dictionary; one scripted history per class with KiB values, hundreds of keys and 6 reopen/sync points.',
             'dbm.dumb only; DBMDict reopen is outside the property.', 'DESIGN.md 4/C20'),
 }
 
